@@ -832,6 +832,10 @@ def check_C17(ctx, rep):
     body = loops[h]
     sa_stores = field_stores(fa, 'scheduled_action', 'SimState')
     it_stores = field_stores(fa, 'scheduled_internal_timer', 'SimState')
+    # `slot.replace(v)` / `slot.insert(v)` store Some(v) (the old value may feed a bookkeeping test)
+    for (b, f, a, t) in calls(fa):
+        if (callee_str(f).endswith('Option::<T>::replace') or callee_str(f).endswith('Option::<T>::insert')) and len(a) == 2 and a[0][0] == 'ref' and in_field(a[0][1], 'scheduled_action', 'SimState'):
+            sa_stores = sa_stores + [(a[0][1], ('agg', 'core::option::Option', 'Some', (('0', a[1]),)), (b, len(fa.blocks[b]['s'])))]
     action_loop_rule(ctx, rep, 'C17.R1', tu, fa, h, body)
     for var in ('SendPadding', 'BlockOutgoing'):
         if var not in arms:
@@ -887,7 +891,8 @@ def check_C17(ctx, rep):
             rep.ob('C17.R1', tu, '%s:overwritten-on-every-path' % var, (lo2, hi2) == (1, 1), 'stores on arm paths: min %s max %s' % (lo2, hi2))
     # ---- R2 Cancel
     if 'Cancel' in arms:
-        pfh = an.paths(tu, history=True, record_stores=lambda pe, val: in_field(pe, 'scheduled_action', 'SimState') or in_field(pe, 'scheduled_internal_timer', 'SimState'), tag='slots', entry=h)
+        pfh = an.paths(tu, history=True, record_stores=lambda pe, val: in_field(pe, 'scheduled_action', 'SimState') or in_field(pe, 'scheduled_internal_timer', 'SimState'),
+                       record_calls=lambda f: callee_str(f).endswith('Option::<T>::take'), tag='slots+take', entry=h)
         timers = prog.variants('maybenot::action::Timer')
         seen = set()
         for (x, lab) in fa.cfg.pred[h]:
@@ -918,6 +923,13 @@ def check_C17(ctx, rep):
                     nm = f[1][1]
                     cleared.add(nm)
                     okv = okv and f[3][0] == 'agg' and f[3][2] == 'None' and slot_index_ok(f[2], nm, 'Cancel')
+                # `slot.take()` is the other way to clear a slot (its result may feed a bookkeeping test)
+                for f in S:
+                    if f[0] == 'called' and f[1].endswith('Option::<T>::take') and f[2] and f[2][0][0] == 'ref':
+                        for nm in ('scheduled_action', 'scheduled_internal_timer'):
+                            if in_field(f[2][0][1], nm, 'SimState'):
+                                cleared.add(nm)
+                                okv = okv and slot_index_ok(f[2][0][1], nm, 'Cancel')
                 for n in names:
                     seen.add(n)
                     want = {'Action': {'scheduled_action'}, 'Internal': {'scheduled_internal_timer'}, 'All': {'scheduled_action', 'scheduled_internal_timer'}}.get(n)
